@@ -90,7 +90,9 @@ def forged_signature(obj, auto=True, args=(), kwargs={}):
     forger = getattr(subject, '_sigtools__forger', None)
     if forger is not None:
         ret = forger(obj=subject)
-        if ret is not None:
+        if isinstance(ret, _util.funcsigs.Signature):
+            # (objects that answer to any attribute name, such as mocks,
+            # "have" a forger too: what it returns is no signature)
             return _signatures.UpgradedSignature._upgrade_with_warning(ret)
     if auto:
         try:
@@ -99,7 +101,7 @@ def forged_signature(obj, auto=True, args=(), kwargs={}):
             pass
         else:
             h = subject._sigtools__autoforwards_hint(subject)
-            if h is not None:
+            if isinstance(h, tuple):
                 try:
                     ret = _autoforwards.autoforwards_ast(
                         *h, args=args, kwargs=kwargs)
